@@ -42,6 +42,13 @@ PARAM_CONTRACT = {
 }
 
 
+# parameters that are 0 or 1
+PARAM_BIT = {
+    ('strict_normalize', 'sign'): 'sign field of a raw mpf (the strict variants assert it)',
+    ('strict_normalize1', 'sign'): 'sign field of a raw mpf',
+    ('mpf_add', '_sub'): 'private flag: 0 for addition, 1 when called by mpf_sub',
+}
+
 # parameters that are >= 1 (so that `p - 1` is non-negative)
 PARAM_POSITIVE = {
     ('atan_taylor_get_cached', 'prec'): 'a working precision is at least 1',
@@ -63,6 +70,13 @@ SITE_CONTRACT = {
         'fixed(wp) is the fixed-point value of a positive mathematical constant (pi, e, ln 2, ...)',
     ('mpf_log', 'tman'):
         'man has exactly bc bits: 2**(bc-1) <= man < 2**bc, so both (1 << bc) - man and man - (1 << (bc-1)) are >= 0',
+}
+
+# (function qualname, argument text) of a normaliser call: why the sign / mantissa argument is non-negative
+NORMALISER_SITE_CONTRACT = {
+    ('def_mpf_constant.f', 'v'): SITE_CONTRACT[('def_mpf_constant.f', 'v')],
+    ('mpf_log', 'tman'): SITE_CONTRACT[('mpf_log', 'tman')],
+    ('mpf_log', 'tsign'): 'tsign = 1 - abs(mag) inside `if 0 <= mag <= 1`: 0 or 1',
 }
 
 # unpacking `p, q = <x>._mpq_`: the denominator of an mpq is positive (mpq.__new__ normalises the sign into p)
